@@ -52,7 +52,7 @@ var propertyCanaries = map[string][]string{
 	"C03": {"ARGS.order", "ARGS.lencheck", "ARGS.query", "LOOPIDX.unused", "OKFLOW.report", "STRIDE.workld", "STRIDE.worknext", "WORKSIZE.min"},
 	"C04": {"STRIDE.contig", "TWIN.bounds", "NILRECV"},
 	"C05": {"OVERLAP.guard", "MODSET.mat", "OVERLAP.symmetric", "TWIN.shadow"},
-	"C06": {"OKFLOW.use", "OKFLOW.cond", "OKFLOW.report", "FACT.normorder", "FACT.state", "NILRECV"},
+	"C06": {"OKFLOW.use", "OKFLOW.cond", "OKFLOW.report", "FACT.normorder", "FACT.state", "FACT.condunit", "NILRECV"},
 	"C07": {"ARGS.arms", "ARGS.strict", "WORKSIZE.querylen", "ARGS.order", "ARGS.lencheck", "ARGS.query", "MAT.order", "ASM.window", "ASM.tail", "STRIDE.len"},
 	"C08": {"PARAMUSE.read", "ASM.window", "ASM.tail", "ASM.units", "STRIDE.extent", "SIB.guards"},
 	"C09": {"GOPROTO.capture", "GOPROTO.lockpair", "GOPROTO.sibling", "POOL.uaf"},
@@ -87,6 +87,8 @@ func init() {
 		{"STRIDE.worknext", "lapack/gonum/dgesvd.go", "itau := iu + ldworku*n", "itau := iu + n*n", lap},
 		{"FLAG.trans", "blas/blas64/blas64.go", "if tA == blas.NoTrans {\n\t\tm, k = a.Rows, a.Cols\n\t} else {\n\t\tm, k = a.Cols, a.Rows\n\t}", "if tA != blas.Trans {\n\t\tm, k = a.Rows, a.Cols\n\t} else {\n\t\tm, k = a.Cols, a.Rows\n\t}", func() *core.Result { return flagx.Run(def, core.Pkgs("./blas/blas64")) }},
 		{"FACT.normorder", "mat/lu.go", "anorm := lapack64.Lange(norm, lu.lu.mat, work)\n\tputFloat64s(work)\n\tlu.ok = lapack64.Getrf(lu.lu.mat, lu.swaps)", "lu.ok = lapack64.Getrf(lu.lu.mat, lu.swaps)\n\tanorm := lapack64.Lange(norm, lu.lu.mat, work)\n\tputFloat64s(work)", func() *core.Result { return factx.Run(def) }},
+		{"FACT.condunit", "mat/lu.go", "lu.cond = 1 / v", "lu.cond = v", func() *core.Result { return factx.Run(def) }},
+		{"FACT.condunit", "mat/dense_arithmetic.go", "cond := 1 / rcond\n\tif cond > ConditionTolerance", "cond := rcond\n\tif cond > ConditionTolerance", func() *core.Result { return factx.Run(def) }},
 		{"FACT.state", "mat/cholesky.go", "c.chol.Copy(chol.chol)\n\tc.cond = chol.cond", "c.chol.Copy(chol.chol)\n\t_ = chol.cond", func() *core.Result { return factx.Run(def) }},
 		{"NILRECV", "mat/cholesky.go", "var tmp VecDense\n\t\ttmp.CloneFromVec(x)", "var tmp *VecDense\n\t\ttmp.CopyVec(x)", func() *core.Result { return nilrecv.Run(def, core.Pkgs("./mat")) }},
 		{"STRIDE.contig", "mat/cholesky.go", "xmat = rv.RawVector()", "xmat = rv.RawVector(); copy(work, rv.RawVector().Data)", matS},
